@@ -44,7 +44,7 @@ func (p *Parser) parseIf(parser *Parser) (Node, error) {
 	// Process subsequent tags (elseif, else, endif)
 	for {
 		// We expect a block start token for elseif, else, or endif
-		if parser.tokenIndex >= len(parser.tokens) || parser.tokens[parser.tokenIndex].Type != TOKEN_BLOCK_START {
+		if parser.tokenIndex >= len(parser.tokens) || !isBlockStartToken(parser.tokens[parser.tokenIndex].Type) {
 			return nil, fmt.Errorf("unexpected end of template, expected endif at line %d", ifLine)
 		}
 		parser.tokenIndex++
@@ -139,6 +139,11 @@ func (p *Parser) parseIf(parser *Parser) (Node, error) {
 // Helper function to check if a token type is a block end token
 func isBlockEndToken(tokenType int) bool {
 	return tokenType == TOKEN_BLOCK_END || tokenType == TOKEN_BLOCK_END_TRIM
+}
+
+// Helper function to check if a token type is a block start token
+func isBlockStartToken(tokenType int) bool {
+	return tokenType == TOKEN_BLOCK_START || tokenType == TOKEN_BLOCK_START_TRIM
 }
 
 // Helper function to check if a token is any kind of variable end token (regular or trim variant)
